@@ -18,7 +18,45 @@ class Step(VC):
 
     def run(self, I, ctx, ob):
         f = run_step(I, ctx, ob, self.variant)
-        v = self.variant
+        step_obligations(I, ctx, ob, f, self.variant)
+
+
+class Chain(VC):
+    """two calls in a row (an allowance change by the owner, then a draw by anyone at any later block): the draw's obligations
+    are checked against the state the first call really produced, so defects that need two cooperating sites show up"""
+    property_id = "C02"
+    crate = CRATE
+
+    def __init__(self, first, second):
+        self.first, self.second = first, second
+        self.name = f"C02.chain.{first}.then.{second}"
+
+    def run(self, I, ctx, ob):
+        f1 = run_step(I, ctx, ob, self.first, n=2)
+        if f1.outcome != "Ok": return
+        f = Facts()
+        f.U, f.variant = f1.U, self.second
+        blk1 = f1.env.get("block")
+        env2 = mk_env(I, ctx)
+        h2, t2 = ctx.fresh_int("block2.height", 0, U64), ctx.fresh_int("block2.time", 0, U64)
+        ctx.assume(zand(h2 >= blk1.get("height"), t2 >= blk1.get("time")))
+        f.env = env2.with_("block", Struct("BlockInfo", [h2, t2, "chain"], ["height", "time", "chain_id"]))
+        f.info = mk_info(I, ctx, name="sender2")
+        msg = symval.fresh(I, ctx, "Cw20ExecuteMsg", "msg2", None, CRATE)
+        msg.variants = [self.second]
+        f.msg = m = I.force(ctx, msg)
+        f.sender = resolve(ctx, f.info.get("sender"), f.U)
+        f.addr = {}
+        for fld in ("owner", "spender", "recipient", "contract"):
+            if m.names and fld in m.names: f.addr[fld] = resolve(ctx, m.get(fld), f.U)
+        f.amount = m.get("amount") if m.names and "amount" in m.names else None
+        f.outcome, f.resp, f.pre = call_entry(I, ctx, ob, CRATE, "execute", "execute", [make_deps(), f.env, f.info, m], f.env, f.info, m, "Cw20ExecuteMsg", CRATE)
+        f.post = ctx.storage
+        ob.outcome = f"Ok>{f.outcome}"
+        step_obligations(I, ctx, ob, f, self.second)
+
+
+def step_obligations(I, ctx, ob, f, v):
         if f.outcome != "Ok":
             return
         sender = f.info.get("sender")
@@ -159,6 +197,9 @@ class Ghost(VC):
 
 def vcs(tier):
     out = [Step(v) for v in VARIANTS]
+    out += [Chain("DecreaseAllowance", "TransferFrom")]
+    if tier == "thorough":
+        out += [Chain("IncreaseAllowance", "TransferFrom")] + [Chain(a, b) for a in ("DecreaseAllowance", "IncreaseAllowance") for b in ("BurnFrom", "SendFrom")]
     out += [Ghost(v) for v in ("IncreaseAllowance", "DecreaseAllowance", "TransferFrom", "SendFrom", "BurnFrom", "Transfer", "Burn")]
     return out
 
